@@ -58,9 +58,27 @@ def build_worker():
         pass
     env = _cargo_env()
     env["CARGO_TARGET_DIR"] = os.path.join(TARGET, "harness")
+    manifest = os.path.join(VERIF, "harness", "Cargo.toml")
+    if REPO != "/repo":
+        # VERIF_REPO points at another checkout (background runs against a snapshot): same harness sources, path dependency
+        # re-pointed, in a scratch copy under the build directory
+        hdir = os.path.join(TARGET, "harness-src")
+        os.makedirs(hdir, exist_ok=True)
+        text = open(manifest).read().replace('path = "/repo"', 'path = "%s"' % REPO)
+        m2 = os.path.join(hdir, "Cargo.toml")
+        if not os.path.exists(m2) or open(m2).read() != text:
+            open(m2, "w").write(text)
+        for name in ("Cargo.lock", "src"):
+            dst = os.path.join(hdir, name)
+            if os.path.islink(dst) or os.path.exists(dst):
+                if os.path.islink(dst):
+                    os.unlink(dst)
+                else:
+                    continue
+            os.symlink(os.path.join(VERIF, "harness", name), dst)
+        manifest = m2
     p = subprocess.run(
-        ["cargo", "build", "--release", "--offline", "--manifest-path",
-         os.path.join(VERIF, "harness", "Cargo.toml")],
+        ["cargo", "build", "--release", "--offline", "--manifest-path", manifest],
         env=env, stdout=subprocess.PIPE, stderr=subprocess.STDOUT, text=True)
     if p.returncode != 0:
         sys.stdout.write(p.stdout[-4000:])
